@@ -14,7 +14,8 @@ RULE = ("Seeded plans: one API operation (get, multiget, getnext, multigetnext, 
         "bulkwalk, table, bulktable; v3 includes the discovery exchange) x wall-clock mode {tied to virtual time, constant, "
         "advancing on every read, jumping forwards/backwards at plan-listed reads} x agent behaviour at the k-th request "
         "{echo, id+1, id-1, arbitrary id, id of the previous request, other community, other version field, discovery reply "
-        "with foreign msgID; any of them optionally with error-status noSuchName} x v1/v2c/v3 levels x wall-clock dates before "
+        "with foreign msgID; any of them optionally with error-status noSuchName and error-index first/0/beyond the bindings, "
+        "applied to the k-th answer only or to every answer from the k-th on} x v1/v2c/v3 levels x wall-clock dates before "
         "and after 19 January 2038 x (v1/v2c) a client that was used with another community before and re-configured, the "
         "foreign community then being that earlier one. Oracle: conformant echo => same result as the twin run under the tied "
         "pre-2038 clock on a client without that history, and never InvalidResponseId; perturbed id => InvalidResponseId and no result; foreign community/version => SnmpError; foreign discovery "
@@ -24,7 +25,7 @@ ASSUMPTIONS = [
     "a perturbed id that happens to equal the id of the request actually sent (constant clock, 'previous id') counts as an echo",
     "wrong id combined with non-zero error-status is not generated (neither C07 nor C08 says which exception wins)",
 ]
-PROBES = ["used_with_another_community_before", "clock_after_2038", "clock_stepping", "clock_jumping", "clock_constant", "id_plus_1", "id_minus_1", "id_arbitrary", "id_previous",
+PROBES = ["every_later_answer_perturbed", "used_with_another_community_before", "clock_after_2038", "clock_stepping", "clock_jumping", "clock_constant", "id_plus_1", "id_minus_1", "id_arbitrary", "id_previous",
           "other_community", "other_version", "disco_foreign_msgid", "perturb_inside_walk", "multiset_stepping",
           "jump_fired", "v1", "v3", "foreign_response_with_error_status"]
 shrink_lists: List[tuple] = [("mib",)]
@@ -83,6 +84,8 @@ def plan_for(tier: str, seed: int, i: int) -> dict:
     if version != "v3" and mrng.random() < 0.25:
         prior = mrng.choice(["old-comm", "public0", proto["community"] + "2", proto["community"][:-1] or "p"])
     return {"prop": ID, "proto": proto, "mib": sorted(mib.items()), "op": op, "behaviour": beh, "with_error": with_error,
+            # sticky: the agent perturbs EVERY answer from the target request on (a broken agent, not one stray datagram)
+            "sticky": mrng.random() < 0.2,
             "prior_community": prior, "error_index_kind": mrng.choice(["first", "first", "zero", "beyond"]),
             "target": rng.randrange(0, 4), "arb": rng.choice([0, 1, -1, 2**31 - 1, -(2**31), 12345]), "clock": clock}
 
@@ -101,6 +104,8 @@ def simplify(plan: dict):
         p = dict(plan); p["target"] = 0; yield p
     if plan.get("prior_community"):
         p = dict(plan); p["prior_community"] = None; yield p
+    if plan.get("sticky"):
+        p = dict(plan); p["sticky"] = False; yield p
 
 
 def _run(plan: dict, clock: dict, behaviour: str, with_prior: bool = True) -> dict:
@@ -121,7 +126,8 @@ def _run(plan: dict, clock: dict, behaviour: str, with_prior: bool = True) -> di
         prev, st["prev"] = st["prev"], rid
         if st["bad_disco"]:
             st["after_bad_disco"] += 1
-        if st["n"] != plan["target"] or behaviour in ("echo", "disco_msgid") or resp["es"] != 0:
+        if (st["n"] < plan["target"] if plan.get("sticky") else st["n"] != plan["target"]) \
+                or behaviour in ("echo", "disco_msgid") or resp["es"] != 0:
             return resp
         if plan.get("with_error"):
             nvb = len(req["pdu"]["vbs"])
@@ -154,6 +160,7 @@ def _run(plan: dict, clock: dict, behaviour: str, with_prior: bool = True) -> di
 
     agent.hook_pdu = hook
     agent.hook_v3 = hook_v3
+    agent.cap = 120          # a client that keeps asking a broken agent ends in Timeout (a verdict), not in an endless run
     client = w.client(dict(proto, community=prior) if prior else proto, timeout=1, retries=1)
     res = exc = None
 
@@ -239,6 +246,7 @@ def execute(plan: dict) -> dict:
     probes = {k: 0 for k in PROBES}
     probes["clock_" + mode] = 1 if mode != "tied" else 0
     probes.pop("clock_tied", None)
+    probes["every_later_answer_perturbed"] = int(bool(plan.get("sticky")) and a["applied"] is not None)
     probes["used_with_another_community_before"] = int(bool(plan.get("prior_community")))
     probes["clock_after_2038"] = int(plan["clock"]["epoch"] >= 2**31)
     for k, name in (("plus1", "id_plus_1"), ("minus1", "id_minus_1"), ("arbitrary", "id_arbitrary"),
